@@ -1009,3 +1009,23 @@ package kapacitor
 //@   ensures [aggregate-field-and-tags] len(callresult(Emit, 0)) == 1 && !e.isSimpleSelector ==> callarg(NewPointMessage, 5) == e.groupInfo.Tags
 //@       && len(callarg(NewPointMessage, 4)) == 1 && has(callarg(NewPointMessage, 4), e.as)
 //@       && typeis(callarg(NewPointMessage, 4)[e.as], bool) && as(callarg(NewPointMessage, 4)[e.as], bool) == callresult(Emit, 0)[0].Value
+
+// ---------------------------------------------------------------- node.go (C05)
+// "node.start deferred recover that turns a node panic into a task error": the deferred function
+// of the node goroutine may be entered while the node function panics (panicking(), either
+// value). Then it must recover the panic -- otherwise the process dies -- and what it reports on
+// the node's error channel must be an error.
+//@ func (*node).closeChildEdges
+//@   trusted
+//@   modifies nothing
+//@ func (*node).abortParentEdges
+//@   trusted
+//@   modifies nothing
+//@ func =(github.com/influxdata/kapacitor/pipeline.Node).Name
+//@   trusted
+//@   pure
+//@ func (*node).start$1$1
+//@   props C05
+//@   requires n != nil && n.diag != nil && n.Node != nil
+//@   ensures [panic-recovered] panicking() ==> recovered()
+//@   guardcall send#1: panicking() ==> err != nil
